@@ -331,7 +331,12 @@ def run_rubik(shard, rep: Report) -> None:
                 if bool(isol(s2.cube)) != sol:
                     viol("is_solved_iff_faces_uniform", {"key": kint})
                 if int(np.asarray(t2.step_type)) == 2:
-                    break
+                    # a fixed-length rollout keeps stepping after the episode has ended (time limit or solved): the action is
+                    # still the same fixed permutation of the stickers
+                    if i < 5:
+                        rep.count("env_steps_after_last")
+                    if int(rng.integers(0, 2)) == 0:
+                        break
     rep.sample({"cube_size": n, "moves_checked": len(moves), "example_move": [0, 0, 0], "reference_perm_head": refp[(0, 0, 0)][:12].tolist()})
     rep.env_count("RubiksCube", "sizes")
 
@@ -498,7 +503,7 @@ def run_sliding_walks(shard, rep: Report) -> None:
     tier, seed, sid = shard["tier"], shard["seed"], shard["id"]
     rng = shard_rng(seed, sid)
     name = "SlidingTilePuzzle"
-    for g, moves in ((2, 0), (2, 7), (3, 1), (3, 50), (4, 50), (5, 200), (5, 100)):
+    for g, moves in ((2, 0), (2, 7), (3, 1), (3, 50), (4, 50), (5, 200), (5, 100), (12, 300), (16, 120)):  # 12, 16: tile numbers beyond 8 bits
         cid = f"g{g}m{moves}"
         env = SlidingTilePuzzle(RandomWalkGenerator(g, moves), time_limit=10**6)
         goal = np.asarray(env.solved_puzzle)
